@@ -260,7 +260,14 @@ def check_pattern(ctx, toks, path_mode, extra, key, base_names, bytes_too=False)
     # (4) escaped backslash in the pattern acts as a separator under FORCEWIN (glob mode)
     if path_mode and any(t[0] == 'sep' for t in toks):
         t2 = gen.ser(tuple(('sep', '\\\\') if t[0] == 'sep' else t for t in toks))
-        for combo in (('FORCEWIN',), ('CASE', 'FORCEWIN')):
+        # ... and so do mixed runs of both spellings behind the first segment (an escaped backslash directly in front of a `/`, and
+        # the other way round): whatever stands behind the run keeps its meaning
+        inner = [i_ for i_, t in enumerate(toks) if t[0] == 'sep' and i_ > 0]
+        variants = [t2]
+        if inner:
+            for run in ('\\\\/', '/\\\\', '\\\\\\\\'):
+                variants.append(gen.ser(tuple(('sep', run) if i_ in inner else t for i_, t in enumerate(toks))))
+        for combo, t2 in [(c_, v_) for c_ in (('FORCEWIN',), ('CASE', 'FORCEWIN')) for v_ in variants]:
             try:
                 m2 = mod.compile(t2, flags=flags_of(combo + extra))
                 v2 = tuple(m2.match(n) for n in names)
@@ -334,6 +341,45 @@ def drive_checks(ctx, rng, k):
                              {'drive': d, 'pattern': d.replace('host', 'ho*t') + ptxt, 'name': d + t})
                 return
     ctx.mark_nontrivial(('drive', d, ptxt))
+
+
+def bare_drive_checks(ctx):
+    """A complete drive / UNC / device prefix with nothing behind it is a pattern too: it matches its own text (any ASCII case, either
+    separator spelling, with or without a closing separator exactly as the pattern has it or more) and no other prefix."""
+    bare = ['//host/share', '//?/c:', '//./pipe', '//?/UNC/host/share', '//?/GLOBAL/UNC/host/share', '//?/GLOBAL/c:', 'c:', '//host/share/', '//?/c:/',
+            'c:/', '//?/UNC/host/share/', '//h/s', '//?/Volume{b75e2c83-0000-0000-0000-602f00000000}']
+    for bi, d in enumerate(bare):
+        if not ctx.mine(bi):
+            continue
+        for case_flags in ((), ('CASE',), ('IGNORECASE',)):
+            for as_bytes in (False, True):
+                conv = (lambda x: x.encode('ascii')) if as_bytes else (lambda x: x)
+                fl = flags_of(('FORCEWIN',) + case_flags)
+                with ctx.case(label=('bare-drive', d, case_flags, as_bytes)):
+                    try:
+                        m = G.compile(conv(d), flags=fl)
+                    except Exception as e:  # noqa: BLE001
+                        ctx.disagree(f'drive pattern raised {type(e).__name__}', {'drive': d, 'pattern': d})
+                        continue
+                    stem = d.rstrip('/')
+                    same = [d, d.swapcase(), d.replace('/', '\\'), d.upper(), d + '/', stem + '\\']
+                    other = [stem.replace('host', 'hosx').replace('c:', 'd:').replace('pipe', 'pipx').replace('//h/s', '//h/t').replace('b75e', 'b75f') + d[len(stem):],
+                             stem + 'x', stem[:-1], stem + '/x']
+                    for n in same:
+                        ctx.evals()
+                        ctx.count('bare_drive_checks')
+                        if m.match(conv(n)) is not True:
+                            ctx.disagree('a bare drive/UNC prefix does not match its own text (case / separator spelling / closing separator)|glob',
+                                         {'drive': d, 'pattern': d, 'name': n, 'flags': list(case_flags) + ['FORCEWIN'], 'bytes': as_bytes})
+                            break
+                    for n in other:
+                        ctx.evals()
+                        ctx.count('bare_drive_checks')
+                        if n != d and m.match(conv(n)) is not False:
+                            ctx.disagree('a bare drive/UNC prefix matches another name|glob',
+                                         {'drive': d, 'pattern': d, 'name': n, 'flags': list(case_flags) + ['FORCEWIN'], 'bytes': as_bytes})
+                            break
+                    ctx.mark_nontrivial(('bare-drive', d, case_flags))
 
 
 def simple_pairs_outside_ascii(ctx):
@@ -423,6 +469,7 @@ def bracket_backslash_templates(ctx):
 
 def run(ctx):
     quick = ctx.quick
+    bare_drive_checks(ctx)
     if ctx.shard == 0:
         bracket_backslash_templates(ctx)
         simple_pairs_outside_ascii(ctx)
